@@ -354,6 +354,8 @@ func runC10(p *Prog, l *Ledger) {
 	}
 
 	c10Queue(p, l, locks)
+	// (d) give-up drains the hand-off channel under the delivery mutex and hands what it finds to its caller (C02/O4)
+	importObligations(p, l, "C02", "O5", func(o *Obligation) bool { return o.Rule == "O4" })
 }
 
 // c10Queue: O5 for limiters that own a backlog and hand listeners over a channel.
@@ -578,6 +580,49 @@ func c10Queue(p *Prog, l *Ledger, locks *LockInfo) {
 			return len(bad) < 3
 		})
 		l.Check(len(bad) == 0 && n > 0, "O5", key, p.At(acq), "eviction and delivery happen only with a token in hand, eviction first", "a waiter can be removed from the backlog without being served", bad...)
+		// (e) "nobody is waiting" is decided under the limiter's mutex too: every way through the hand-off function takes an
+		// exclusive lock before it looks at the backlog or returns. A look at the backlog before the lock can fall between a
+		// caller's failed attempt and its enqueue (both inside that caller's critical section): the caller then sleeps with
+		// the capacity free.
+		{
+			var ebad []string
+			ne := 0
+			EnumPaths(f, 100000, func(pa *Path) bool {
+				if !pa.IsReturn() {
+					return true
+				}
+				ne++
+				locked := false
+				pa.Each(func(step int, ins ssa.Instruction) bool {
+					call, ok := ins.(*ssa.Call)
+					if !ok {
+						return true
+					}
+					c := p.CallOf(call)
+					if op, _ := p.lockOpOf(c); op == opLock {
+						locked = true
+						return true
+					}
+					if !locked && c.Static != nil && c.Recv != nil && p.InModule(c.Static) {
+						if d := derefNamed(c.Recv.Type()); d != nil {
+							if ds, ok := d.Underlying().(*types.Struct); ok {
+								for j := 0; j < ds.NumFields(); j++ {
+									if isListPtr(ds.Field(j).Type()) {
+										ebad = append(ebad, fmt.Sprintf("%s: the backlog is consulted (%s) before the hand-off takes the limiter's mutex", p.At(ins), c.Static.Name()))
+									}
+								}
+							}
+						}
+					}
+					return true
+				})
+				if !locked {
+					ebad = append(ebad, "a path through the hand-off returns without taking the limiter's mutex: "+joinWitness(p.DescribePath(pa)))
+				}
+				return len(ebad) < 3
+			})
+			l.Check(len(ebad) == 0 && ne > 0, "O5", p.Key(f)+"/decides-under-lock", p.FuncPos(f), "every path takes the limiter's exclusive mutex before it reads the backlog or returns", "a release can conclude that nobody waits while a caller is between its failed attempt and its enqueue", ebad...)
+		}
 	}
 	_ = token.ADD
 }
